@@ -212,3 +212,12 @@ Check (C12_start_witnesses_repaired :
    task_view true w_stale_in = [([101; 7], [101], [7])]) /\
   (map (fun t => (s_out (t_out t), s_hs (t_out t))) (tasks (final true false w_stale_out)) = [([LOCAL_HS; 9], [201])] /\
    In (UOpened 0 true 201) (user_events true w_stale_out))).
+Check (C12_start_closing_is_silent :
+  forall (s : st) (k : N) (t : task),
+    find_task k (tasks s) = Some t -> t_alive t = true -> t_running t = false ->
+    exists t', find_task k (tasks (task_poll s k)) = Some t' /\ same_io t t').
+Check (C12_start_handle_gone_closes :
+  forall (s : st) (k : N) (t : task),
+    find_task k (tasks s) = Some t -> t_ph t = PRun -> hdrop s = true -> t_res t = false ->
+    exists t', find_task k (tasks (task_poll s k)) = Some t' /\ t_running t' = false /\
+               t_in t' = t_in t /\ t_fwd t' = t_fwd t).
